@@ -19,6 +19,8 @@ func init() {
 			"Holds for every loss point and loss kind because call sites, not executions, are enumerated. NOT decided: promptness in wall-clock terms; nil-pointer panics inside a transport implementation after loss.",
 		Assumptions: []string{"a failing transport reports through its error result", "user callbacks/OnOpen functions are outside the library"},
 		Mutants: []Mutant{
+			{ID: "C06-login-reads-all", Desc: "the ssh login loop drains the queue with ReadAll (which does not see the reader's exit)", Rule: "C06/no-blind-consumer",
+				Edits: []Edit{{File: "channel/auth.go", Old: "\t\tnb, err := c.Read()\n", New: "\t\tnb, err := c.ReadAll()\n"}}},
 			{ID: "C06-telnet-conn-nil", Desc: "telnet Open resets its connection to nil after a failed negotiation", Rule: "C06/conn-never-nil",
 				Edits: []Edit{{File: "transport/telnet.go", Old: "\terr = t.handleControlChars(a)\n\tif err != nil {\n\t\treturn err\n\t}", New: "\terr = t.handleControlChars(a)\n\tif err != nil {\n\t\t_ = t.c.Close()\n\t\tt.c = nil\n\n\t\treturn err\n\t}"}}},
 			{ID: "C06-hello-read-retried-blindly", Desc: "the hello read is retried in a loop that never looks at its error", Rule: "C06/loop-error-examined",
